@@ -75,7 +75,8 @@ class Extractor:
                 return ("const", int(k["v"]))
             pv = self.prog.promoted_value(op)
             if pv is not None:
-                return ("ref", ("variant", pv[0], pv[1], []))
+                pf = self.prog.promoted_fields(op) or []
+                return ("ref", ("variant", pv[0], pv[1], [("const", x) for x in pf]))
             if k["c"] == "fn":
                 return ("fn", k["callee"]["id"], k["callee"]["def"])
             if k["c"] == "zst":
@@ -469,6 +470,23 @@ class Evaluator:
                     return Opaque("eq on opaque")
                 r = vals[0] == vals[1]
                 return int(r if not name.endswith("::ne") else not r)
+            if name == "std::ops::RangeInclusive::<Idx>::new" and len(vals) == 2:
+                return EnumVal("RangeInclusive", "RangeInclusive", [vals[0], vals[1]])
+            m2 = re.match(r"^std::ops::(Range|RangeInclusive|RangeTo|RangeFrom|RangeToInclusive)::<Idx>::contains$", name)
+            if m2 and len(vals) == 2 and isinstance(vals[0], EnumVal) and isinstance(vals[1], int) and \
+                    all(isinstance(x, int) for x in vals[0].f) and \
+                    len(vals[0].f) == (2 if m2.group(1) in ("Range", "RangeInclusive") else 1):
+                f, x = vals[0].f, vals[1]
+                kind = m2.group(1)
+                if kind == "Range":
+                    return int(f[0] <= x < f[1])
+                if kind == "RangeInclusive":
+                    return int(f[0] <= x <= f[1])
+                if kind == "RangeTo":
+                    return int(x < f[0])
+                if kind == "RangeToInclusive":
+                    return int(x <= f[0])
+                return int(x >= f[0])
             if name.startswith("std::convert::num::<impl std::convert::From<") and vals:
                 return int(vals[0]) if not isinstance(vals[0], Opaque) else vals[0]
             body = self.prog.bodies.get(cid)
